@@ -346,36 +346,78 @@ func cmdCheck(args []string) int {
 		obligDir = filepath.Join(workDir, "oblig")
 		os.MkdirAll(obligDir, 0o755)
 	}
-	results := make([]sx.ItemResult, len(items))
+	// job queue with work stealing: a worker whose subtree is large donates
+	// pending decision prefixes when other workers are idle
+	var (
+		qmu     sync.Mutex
+		qcond   = sync.NewCond(&qmu)
+		queue   []sx.Item
+		idle    int
+		results []sx.ItemResult
+		fatals  []string
+		done    bool
+	)
+	queue = append(queue, items...)
+	sharing := &sx.Sharing{
+		Idle: func() bool {
+			qmu.Lock()
+			defer qmu.Unlock()
+			return idle > 0 && len(queue) == 0
+		},
+		Donate: func(its []sx.Item) {
+			qmu.Lock()
+			queue = append(queue, its...)
+			qmu.Unlock()
+			qcond.Broadcast()
+		},
+	}
 	var wg sync.WaitGroup
-	ch := make(chan int)
-	var fatalMu sync.Mutex
-	var fatals []string
 	for i := 0; i < nw; i++ {
 		wg.Add(1)
 		go func() {
 			defer wg.Done()
 			w, err := sx.NewWorker(prog)
 			if err != nil {
-				fatalMu.Lock()
+				qmu.Lock()
 				fatals = append(fatals, err.Error())
-				fatalMu.Unlock()
-				for range ch {
-				}
+				nw--
+				qmu.Unlock()
+				qcond.Broadcast()
 				return
 			}
 			w.ObligDir = obligDir
 			defer w.Close()
-			for idx := range ch {
-				results[idx] = w.Run(items[idx])
+			for {
+				qmu.Lock()
+				for len(queue) == 0 && !done {
+					idle++
+					if idle >= nw {
+						done = true
+						qcond.Broadcast()
+						break
+					}
+					qcond.Wait()
+					idle--
+				}
+				if len(queue) == 0 {
+					qmu.Unlock()
+					return
+				}
+				it := queue[0]
+				queue = queue[1:]
+				qmu.Unlock()
+				r := w.Run(it, sharing)
+				qmu.Lock()
+				results = append(results, r)
+				qmu.Unlock()
 			}
 		}()
 	}
-	for i := range items {
-		ch <- i
-	}
-	close(ch)
 	wg.Wait()
+	if len(fatals) > 0 && len(results) == 0 {
+		fmt.Println("INCONCLUSIVE no worker could start:", fatals)
+		return 2
+	}
 
 	// ---- aggregate ----
 	var tot sx.PathStats
@@ -391,6 +433,7 @@ func cmdCheck(args []string) int {
 	var witFiles []string
 	witMeta := map[string]replayRec{}
 	kfHits := map[string]int{}
+	witSeq := 0
 	terms := 0
 	for _, f := range fatals {
 		inconclusive["worker: "+f]++
@@ -406,6 +449,9 @@ func cmdCheck(args []string) int {
 			inconclusive[r.Item.Harness+": "+r.Fatal]++
 		}
 		s := r.Stats
+		if os.Getenv("VERIF_VERBOSE") != "" {
+			fmt.Printf("  item %s %s: paths=%d forks=%d steps=%d solverQ=%d solver=%.1fs dom=%d wall=%.1fs\n", r.Item.Harness, shapeString(r.Item.Shape), s.Paths, s.Forks, s.Steps, r.SolverQ, r.SolverTime.Seconds(), s.DomDecided, r.Wall.Seconds())
+		}
 		tot.Paths += s.Paths
 		tot.Infeasible += s.Infeasible
 		tot.Forks += s.Forks
@@ -418,6 +464,9 @@ func cmdCheck(args []string) int {
 		tot.FeasQ += s.FeasQ
 		tot.FeasUnknown += s.FeasUnknown
 		tot.BudgetOverruns += s.BudgetOverruns
+		tot.DomDecided += s.DomDecided
+		tot.DomChecked += s.DomChecked
+		tot.DomDisagree += s.DomDisagree
 		for k, v := range s.Unsupported {
 			inconclusive[r.Item.Harness+": "+k] += v
 		}
@@ -459,7 +508,8 @@ func cmdCheck(args []string) int {
 		for i, wt := range r.Witnesses {
 			rec := replayRec{Property: prop, Harness: r.Item.Harness, Shape: r.Item.Shape, Known: r.Item.Known, Kind: "witness", Values: wt.Values, Obs: wt.Obs, Reach: wt.Reach}
 			b, _ := json.Marshal(rec)
-			name := filepath.Join(witDir, fmt.Sprintf("%s_%s_%d.json", r.Item.Harness, shapeString(r.Item.Shape), i))
+			witSeq++
+			name := filepath.Join(witDir, fmt.Sprintf("%s_%s_%d_%d.json", r.Item.Harness, shapeString(r.Item.Shape), i, witSeq))
 			os.WriteFile(name, b, 0o644)
 			witFiles = append(witFiles, name)
 			witMeta[name] = rec
@@ -659,6 +709,9 @@ func cmdCheck(args []string) int {
 		"work_items":                    len(items),
 		"feasibility_queries":           tot.FeasQ,
 		"feasibility_unknown":           tot.FeasUnknown,
+		"feasibility_by_byte_domain":    tot.DomDecided,
+		"byte_domain_rechecked_by_z3":   tot.DomChecked,
+		"byte_domain_disagreements":     tot.DomDisagree,
 		"obligation_queries":            tot.ObligationsQ,
 		"obligations_unsat":             tot.ObligationsU,
 		"obligations_concrete_true":     tot.ObligationsC,
